@@ -936,7 +936,7 @@ def capUpdate (cx : Ctx) (w w' : World) (ws : List String) (ok : Bool) : List Ca
   let set (cs : List Cap.St) (r : Nat) (st : Cap.St) : List Cap.St := cs.set r st
   let keep (r : Nat) : List Cap.St := set w.caps r ((get r).setLen (lenOf w' r))
   let op := ((ws.headD "").dropWhile (· == 't')).toString
-  let op := if ["runcate", "o_vec"].contains op then "t" ++ op else op
+  let op := if op == "runcate" || op.startsWith "o_vec" then "t" ++ op else op
   let reg (i : Nat) : Nat := ((ws.getD i "").drop 1).toString.toNat?.getD 0
   let num (i : Nat) : Nat := (ws.getD i "").toNat?.getD 0
   if op == "unwind_drop" then set w.caps (reg 1) fresh else
